@@ -122,7 +122,7 @@ class Result:
 class Sub:
     def __init__(self, name, strategy, check, quick=200, thorough=5000, shards_quick=4,
                  shards_thorough=16, required=(), timeout=120.0, budget_quick=150.0,
-                 budget_thorough=900.0, doc='', explicit=(), timeout_is_violation=False):
+                 budget_thorough=600.0, doc='', explicit=(), timeout_is_violation=False):
         self.name = name
         self.strategy = strategy          # zero-argument callable returning a strategy
         self.check = check
